@@ -341,15 +341,15 @@ fn run(ctx: &mut Ctx) {
     // (c)+(d) random exploration on longer inputs
     let plan = Plan {
         pool: true,
-        grammar_docs: t.pick(6_000, 150_000),
+        grammar_docs: t.pick(20_000, 300_000),
         mutants_per_doc: 2,
         truncate_all: false,
         bom_share: 6,
         corpus: true,
         corpus_truncs: 2,
         corpus_max_len: t.pick(16 << 10, 256 << 10),
-        random_atoms: t.pick(30_000, 600_000),
-        random_bytes: t.pick(30_000, 600_000),
+        random_atoms: t.pick(100_000, 1_500_000),
+        random_bytes: t.pick(100_000, 1_500_000),
         ..Plan::default()
     };
     for_each_input(ctx, &plan, &mut |ctx, input, src, r| {
